@@ -43,6 +43,9 @@ func init() {
 		for nn := int64(0); nn <= maxg; nn++ {
 			for nq := int64(0); nq <= maxg; nq++ {
 				nn, nq := nn, nq
+				if nn+nq > 5 {
+					continue // 3+3 does not close within 300 s per query (unknown); not claimed
+				}
 				s.Instances = append(s.Instances, run.Instance{Pkg: "picker", Func: "VpH_C16_run", Params: map[string]int64{"nn": nn, "nq": nq},
 					Opt: run.Options{Abstract: true, LoopBound: 12, TimeoutMs: 300000, PanicMode: "ignore", Setup: func(x *vexec.Exec, w *run.World) { pickerContracts(x, w, int(nn), int(nq)) }}})
 			}
@@ -63,7 +66,7 @@ func init() {
 		s.Confirm = &ConfirmRun{"picker", "VpV_C16_sweep", "VpV_C16_case"}
 		s.Bounds = append(s.Bounds,
 			"selection step: frames of 1..6 entries with arbitrary moves, weights and yielded prefix",
-			"staged run as a whole: the real Picker.Next iterated to exhaustion on an arbitrary board (64 arbitrary cells, arbitrary e.p. square and side) with ANY 15-bit hash move; generators, pseudo-legality test and rankers under contract: 0..2 (quick) / 0..3 (thorough) noisy and as many quiet moves, all arbitrary encodings that are noisy resp. quiet by the split specification VpNoisy; every generated move is yielded exactly once, nothing else is, the hash move comes first iff pseudo-legal",
+			"staged run as a whole: the real Picker.Next iterated to exhaustion on an arbitrary board (64 arbitrary cells, arbitrary e.p. square and side) with ANY 15-bit hash move; generators, pseudo-legality test and rankers under contract: 0..2 (quick) / 0..3 (thorough, at most 5 in total: 3+3 does not close) noisy and as many quiet moves, all arbitrary encodings that are noisy resp. quiet by the split specification VpNoisy; every generated move is yielded exactly once, nothing else is, the hash move comes first iff pseudo-legal",
 			"generator split: the REAL GenNoisy emits only captures/promotions/en-passant captures and the REAL GenNotNoisy none of them, from an arbitrary valid position, per (side, from-square) case with symbolic target and promotion bits: quick 12 from-squares per side, thorough all 64",
 			"contract-level counterexamples of the staged run are reported only after the native sweep (real picker on the repo's test positions, every generated move and some foreign encodings as hash move) reproduces a failure; otherwise INCONCLUSIVE")
 		s.Stubs = append(s.Stubs, "staged run: movegen.GenNoisy/GenNotNoisy -> arbitrary duplicate-free lists of the given lengths obeying the split specification; Board.IsPseudoLegal -> membership in those lists (C05); MoveRanker.RankNoisy/RankQuiet -> arbitrary values in the capture bands / quiet band (this check's band obligations)")
